@@ -14,6 +14,7 @@ import (
 	"sort"
 	"testing"
 	"testing/synctest"
+	"time"
 
 	"github.com/cosi-project/runtime/pkg/resource"
 	"github.com/cosi-project/runtime/pkg/state"
@@ -69,8 +70,10 @@ type Line struct {
 	P    int    `json:"p"`
 	Bm   string `json:"bm"`
 	Res  string `json:"res"`
-	E    AbsEv  `json:"e"`
-	Note string `json:"note"`
+	E      AbsEv  `json:"e"`
+	Note   string `json:"note"`
+	Remote bool   `json:"remote"`
+	Retry  bool   `json:"retry"`
 }
 
 var idNames = []string{"", "a", "b", "c", "d"}
@@ -150,7 +153,11 @@ type run struct {
 	t      *testing.T
 	tr     *vh.Trace
 	tid    string
-	st     *inmem.State
+	wr     state.CoreState // writes go here
+	wst    state.CoreState // watches are started here (the same state, or a remote view of it)
+	remote bool
+	retry  bool
+	wfs    map[int]*wfaults
 	ctx    context.Context
 	ws     map[int]*watcher // by command slot
 	all    []*watcher
@@ -186,22 +193,22 @@ func (r *run) pub(c Cmd) {
 	switch c.Op {
 	case "create":
 		res := vh.NewRes(k, vh.Obj{Spec: 1, Labels: labels, Phase: "running"})
-		err = r.st.Create(r.ctx, res)
+		err = r.wr.Create(r.ctx, res)
 		ver = vh.VersionInt(res.Metadata().Version())
 	case "update":
 		var cur resource.Resource
 
-		cur, err = r.st.Get(r.ctx, k.Pointer())
+		cur, err = r.wr.Get(r.ctx, k.Pointer())
 		if err == nil {
 			o := vh.Project(cur, nil)
 			o.Spec++
 			o.Labels = labels
 			res := vh.NewRes(k, o)
-			err = r.st.Update(r.ctx, res)
+			err = r.wr.Update(r.ctx, res)
 			ver = vh.VersionInt(res.Metadata().Version())
 		}
 	case "destroy":
-		err = r.st.Destroy(r.ctx, k.Pointer())
+		err = r.wr.Destroy(r.ctx, k.Pointer())
 	}
 
 	if err != nil {
@@ -252,6 +259,12 @@ func (r *run) start(slot int, kind string, id int, filt bool, mode string, n, p 
 	r.nextW++
 	w := &watcher{w: r.nextW, kind: kind, cancel: cancel}
 
+	if r.remote {
+		wf := &wfaults{kick: make(chan struct{})}
+		r.wfs[w.w] = wf
+		ctx = context.WithValue(ctx, watcherKey{}, wf)
+	}
+
 	var err error
 
 	switch kind {
@@ -267,7 +280,7 @@ func (r *run) start(slot int, kind string, id int, filt bool, mode string, n, p 
 			opts = append(opts, state.WithStartFromBookmark(r.bookmark(p, bmVariant)))
 		}
 
-		err = r.st.Watch(ctx, r.key(id).Pointer(), w.ch, opts...)
+		err = r.wst.Watch(ctx, r.key(id).Pointer(), w.ch, opts...)
 	default:
 		var opts []state.WatchKindOption
 
@@ -290,10 +303,10 @@ func (r *run) start(slot int, kind string, id int, filt bool, mode string, n, p 
 
 		if kind == "agg" {
 			w.agg = make(chan []state.Event)
-			err = r.st.WatchKindAggregated(ctx, kindMd, w.agg, opts...)
+			err = r.wst.WatchKindAggregated(ctx, kindMd, w.agg, opts...)
 		} else {
 			w.ch = make(chan state.Event)
-			err = r.st.WatchKind(ctx, kindMd, w.ch, opts...)
+			err = r.wst.WatchKind(ctx, kindMd, w.ch, opts...)
 		}
 	}
 
@@ -307,7 +320,7 @@ func (r *run) start(slot int, kind string, id int, filt bool, mode string, n, p 
 		res = "error:" + err.Error()
 	}
 
-	r.emit(Line{Ev: "start", W: w.w, Kind: kind, ID: id, Filt: filt, Mode: mode, N: n, P: p, Bm: bmVariant, Res: res})
+	r.emit(Line{Ev: "start", W: w.w, Kind: kind, ID: id, Filt: filt, Mode: mode, N: n, P: p, Bm: bmVariant, Res: res, Remote: r.remote, Retry: r.retry})
 
 	if err != nil {
 		cancel()
@@ -326,7 +339,13 @@ func (r *run) start(slot int, kind string, id int, filt bool, mode string, n, p 
 
 func (r *run) note(w *watcher, ev state.Event) {
 	a := project(ev)
-	r.emit(Line{Ev: "recv", W: w.w, E: a})
+	l := Line{Ev: "recv", W: w.w, E: a}
+
+	if ev.Type == state.Errored && ev.Error != nil {
+		l.Note = ev.Error.Error()
+	}
+
+	r.emit(l)
 
 	if a.Bm >= 0 && (a.T == "created" || a.T == "updated" || a.T == "destroyed") {
 		if _, ok := r.seen[a.Bm]; !ok {
@@ -368,14 +387,31 @@ func (r *run) recv(w *watcher) bool {
 }
 
 func (r *run) drain() {
-	for progress := true; progress; {
-		progress = false
+	idle := 0
+
+	for {
+		progress := false
 
 		for _, w := range r.all {
 			for r.recv(w) {
 				progress = true
 			}
 		}
+
+		if progress {
+			idle = 0
+
+			continue
+		}
+
+		// a remote watch may be sleeping in its retry back-off: let virtual time pass before giving up
+		if !r.remote || idle >= 2 {
+			return
+		}
+
+		idle++
+
+		time.Sleep(10 * time.Second)
 	}
 }
 
@@ -383,12 +419,13 @@ func runBehaviour(t *testing.T, tr *vh.Trace, tid string, g Group, beh []Cmd, co
 	synctest.Test(t, func(t *testing.T) {
 		ctx, cancel := context.WithCancel(context.Background())
 
+		local := inmem.NewStateWithOptions(
+			inmem.WithHistoryInitialCapacity(g.InitCap), inmem.WithHistoryMaxCapacity(g.MaxCap), inmem.WithHistoryGap(g.Gap),
+		)(ns)
+
 		r := &run{
-			t: t, tr: tr, tid: tid, ctx: ctx, cookie: cookie,
-			st: inmem.NewStateWithOptions(
-				inmem.WithHistoryInitialCapacity(g.InitCap), inmem.WithHistoryMaxCapacity(g.MaxCap), inmem.WithHistoryGap(g.Gap),
-			)(ns),
-			ws: map[int]*watcher{}, seen: map[int]state.Bookmark{}, seenID: map[int]int{},
+			t: t, tr: tr, tid: tid, ctx: ctx, cookie: cookie, wr: local, wst: local,
+			ws: map[int]*watcher{}, seen: map[int]state.Bookmark{}, seenID: map[int]int{}, wfs: map[int]*wfaults{},
 		}
 
 		r.emit(Line{Ev: "reset"})
